@@ -1,6 +1,161 @@
 package main
 
-// Structural (ownership / blocking-effect / wiring) obligations, decided on the SSA
-// by the engine itself.  Filled in per property.
+// Structural (ownership / immutability / blocking-effect / wiring) obligations,
+// decided on the SSA of /repo by the engine itself (back end "structural").
+// They are frame/ownership conditions of the contracts: the proofs by SMT rely on
+// them, and they are generated from the current source like every other obligation.
 
-func (e *engine) structuralObligations(prop string) []*oblig { return nil }
+import (
+	"fmt"
+	"go/token"
+	"go/types"
+	"sort"
+	"strings"
+
+	"golang.org/x/tools/go/ssa"
+)
+
+func (e *engine) structOblig(name string, props []string, ok bool, clause, detail string, pos token.Pos) *oblig {
+	o := &oblig{name: "structural/" + name, kind: "structural", fn: "structural", goal: clause, clause: clause, props: props, solver: "structural", tpos: pos}
+	if pos.IsValid() {
+		p := e.fset.Position(pos)
+		o.pos = fmt.Sprintf("%s:%d", p.Filename, p.Line)
+	}
+	if ok {
+		o.result = "unsat"
+	} else {
+		o.result = "sat"
+		o.model = detail
+	}
+	return o
+}
+
+// allRepoFuncs returns every function with a body in the loaded /repo packages, sorted.
+func (e *engine) allRepoFuncs() []*ssa.Function {
+	var out []*ssa.Function
+	for _, f := range e.funcByName {
+		if len(f.Blocks) > 0 {
+			out = append(out, f)
+		}
+	}
+	sort.Slice(out, func(i, j int) bool { return canonName(out[i]) < canonName(out[j]) })
+	return out
+}
+
+func (e *engine) posStr(p token.Pos) string {
+	if !p.IsValid() {
+		return "?"
+	}
+	q := e.fset.Position(p)
+	return fmt.Sprintf("%s:%d", q.Filename, q.Line)
+}
+
+func (e *engine) structuralObligations(prop string) []*oblig {
+	var out []*oblig
+	switch prop {
+	case "C17", "C18", "C19":
+		out = append(out, e.immutabilityObligations([]string{"C17", "C18", "C19"})...)
+	}
+	return out
+}
+
+// immutabilityObligations: fields declared immutable are assigned only on objects
+// allocated in the assigning function; maps held in frozen fields / of frozen
+// types are never updated through such a value.
+func (e *engine) immutabilityObligations(props []string) []*oblig {
+	var out []*oblig
+	fieldKey := func(fa *ssa.FieldAddr) string {
+		stt := fa.X.Type().Underlying().(*types.Pointer).Elem()
+		return typeName(stt) + "." + stt.Underlying().(*types.Struct).Field(fa.Field).Name()
+	}
+	bad := map[string][]string{}
+	for k := range e.db.immutable {
+		bad["immutable."+k] = nil
+	}
+	for k := range e.db.frozen {
+		bad["frozen."+k] = nil
+	}
+	for k := range e.db.frozenType {
+		bad["frozen-type."+k] = nil
+	}
+	// does v derive from a frozen field or frozen type?
+	var frozenSrc func(v ssa.Value, depth int) string
+	frozenSrc = func(v ssa.Value, depth int) string {
+		if depth > 6 {
+			return ""
+		}
+		if n, ok := v.Type().(*types.Named); ok && e.db.frozenType[typeName(n)] {
+			return "frozen-type." + typeName(n)
+		}
+		switch x := v.(type) {
+		case *ssa.UnOp:
+			if x.Op == token.MUL {
+				if fa, ok := x.X.(*ssa.FieldAddr); ok {
+					if k := fieldKey(fa); e.db.frozen[k] {
+						return "frozen." + k
+					}
+				}
+				return frozenSrc(x.X, depth+1)
+			}
+		case *ssa.Field:
+			stt := x.X.Type()
+			k := typeName(stt) + "." + stt.Underlying().(*types.Struct).Field(x.Field).Name()
+			if e.db.frozen[k] {
+				return "frozen." + k
+			}
+		case *ssa.ChangeType:
+			return frozenSrc(x.X, depth+1)
+		case *ssa.TypeAssert:
+			if n, ok := x.AssertedType.(*types.Named); ok && e.db.frozenType[typeName(n)] {
+				return "frozen-type." + typeName(n)
+			}
+		case *ssa.Extract:
+			return frozenSrc(x.Tuple, depth+1)
+		}
+		return ""
+	}
+	for _, fn := range e.allRepoFuncs() {
+		for _, b := range fn.Blocks {
+			for _, ins := range b.Instrs {
+				switch i := ins.(type) {
+				case *ssa.Store:
+					fa, ok := i.Addr.(*ssa.FieldAddr)
+					if !ok {
+						continue
+					}
+					k := fieldKey(fa)
+					if !e.db.immutable[k] {
+						continue
+					}
+					if a, ok := fa.X.(*ssa.Alloc); ok && a.Heap {
+						continue // store into an object allocated right here
+					}
+					bad["immutable."+k] = append(bad["immutable."+k], fmt.Sprintf("%s assigns the field at %s", canonName(fn), e.posStr(i.Pos())))
+				case *ssa.MapUpdate:
+					if src := frozenSrc(i.Map, 0); src != "" {
+						bad[src] = append(bad[src], fmt.Sprintf("%s updates the map at %s", canonName(fn), e.posStr(i.Pos())))
+					}
+				case *ssa.Call:
+					if bi, ok := i.Call.Value.(*ssa.Builtin); ok && bi.Name() == "delete" {
+						if src := frozenSrc(i.Call.Args[0], 0); src != "" {
+							bad[src] = append(bad[src], fmt.Sprintf("%s deletes from the map at %s", canonName(fn), e.posStr(i.Pos())))
+						}
+					}
+				}
+			}
+		}
+	}
+	var keys []string
+	for k := range bad {
+		keys = append(keys, k)
+	}
+	sort.Strings(keys)
+	for _, k := range keys {
+		clause := "the field is assigned only on objects allocated in the assigning function (constructor)"
+		if strings.HasPrefix(k, "frozen") {
+			clause = "no map update or delete goes through a value read from this frozen field / of this frozen type"
+		}
+		out = append(out, e.structOblig(k, props, len(bad[k]) == 0, clause, strings.Join(bad[k], "\n"), token.NoPos))
+	}
+	return out
+}
